@@ -183,7 +183,7 @@ func runC39(c *Ctx) {
 	if enc != nil && dec != nil {
 		type facts struct {
 			header, b64std, gcm, aesKey bool
-			splitter                   int64
+			splitter                    int64
 		}
 		get := func(fn *ssa.Function) facts {
 			f := facts{splitter: -1}
